@@ -15,9 +15,29 @@
 #include <type_traits>
 
 #if defined(__SANITIZE_ADDRESS__)
+    #include <fcntl.h>
     #include <sanitizer/asan_interface.h>
     #define VH_POISON(p, n)   __asan_poison_memory_region((p), (n))
     #define VH_UNPOISON(p, n) __asan_unpoison_memory_region((p), (n))
+// The sanitizer build runs AddressSanitizer in recover mode (-fsanitize-recover=address,
+// halt_on_error=0, suppress_equal_pcs=0): an out-of-view read is reported through this callback and
+// the case's impl leg becomes "crash asan"; the process is not re-forked per faulty case (a defect
+// that over-reads makes tens of thousands of cases faulty).  Only the first reports are printed.
+namespace vh_asan {
+inline unsigned long hits = 0;
+inline void on_report(char const* /*text*/)
+{
+    ++hits;
+    if (hits == 3) {
+        int fd = open("/dev/null", O_WRONLY);
+        if (fd >= 0) {
+            dup2(fd, 2);
+            close(fd);
+        }
+    }
+}
+inline bool const installed = (__asan_set_error_report_callback(on_report), true);
+} // namespace vh_asan
 #else
     #define VH_POISON(p, n)   ((void)0)
     #define VH_UNPOISON(p, n) ((void)0)
@@ -365,7 +385,24 @@ struct Run {
     }
 };
 
+static bool dispatch(std::string const& op, Toks& in, Out& impl, Out& ref);
+
 bool vh::run_case(std::string const& op, Toks& in, Out& impl, Out& ref)
+{
+#if defined(__SANITIZE_ADDRESS__)
+    auto const before = vh_asan::hits;
+    auto const known  = dispatch(op, in, impl, ref);
+    if (vh_asan::hits != before) {
+        impl.s.clear();
+        impl.tok("crash").tok("asan");
+    }
+    return known;
+#else
+    return dispatch(op, in, impl, ref);
+#endif
+}
+
+static bool dispatch(std::string const& op, Toks& in, Out& impl, Out& ref)
 {
     auto ck = in.str();
     if (ck == "c") { return Run<char>::run(op, in, impl, ref); }
